@@ -18,6 +18,7 @@ raises, or is cut at an injected line.
 import random
 
 import heap_common as H
+import heap_shapes as HS
 
 PID = "C01"
 LEAN_TARGETS = ["SpecVerif.Props.C01"]
@@ -37,7 +38,19 @@ RULE = (
     "12% ill-typed argument positions, 15% callback fault plans); non-trivial = the line changed the world or raised; "
     "distinct = distinct (table, pre-world, line) triples. extra = crash-point sweep: LineBoom injected at executed "
     "lines of spec_classes/* and generated wrappers inside copy-on-write helper calls (quick: the first and last "
-    "visit of every distinct source line the call executes + 20 random line events; thorough: every line event)."
+    "visit of every distinct source line the call executes + 20 random line events; thorough: every line event). "
+    "extra (2) = class families outside the heap grammar (harness/heap_shapes.py; real code + snapshot oracle): 17 value "
+    "kinds (KeyedList/KeyedSet of scalars and of keyed spec items, tuples of scalars / of lists / of spec instances, "
+    "containers of containers, Dict/List of spec items, nested plain and frozen spec instances) x storage (plain with "
+    "four kinds of default, attribute-level do_not_copy, invalidated attribute, Alias with local override / passthrough "
+    "/ fallback, overridable and cached spec_property, property with setter, unmanaged entries) x class shape (eager, "
+    "lazy, spec subclass, plain subclass) x invalidation (none, by name, wildcard property, wildcard attribute, wildcard "
+    "only) x receiver state (size 0-3, entries materialised by constructor / assignment / helper, caches filled or "
+    "empty, generation 0-3, aliasing inside the instance, held as attribute / list member / dict value of an outer "
+    "instance) x every copy-on-write route with valid and with failing arguments (295 self routes, 23 outer routes); "
+    "quick: every 6th scenario of the systematic part (offset by seed) + 300 random, in seeded random order, the "
+    "second half after a fixed prelude of earlier calls (one value of every shape pushed through the library: "
+    "module-level caches), 6 calls cut at library lines; thorough: all + 8000 random, 200 cut."
 )
 ASSUMPTIONS = [
     "user callbacks (transforms, preparers, item preparers, __post_copy__) are pure: they return new objects or their "
@@ -48,6 +61,9 @@ ASSUMPTIONS = [
     "(list.insert, dict.__setitem__) is not expressible and not claimed",
     "bool values are not generated (Python identifies True with 1); dict literals are not passed where a nested spec "
     "instance is expected",
+    "class families of extra (2): a helper may READ the receiver; filling the cache of a cached spec_property of the "
+    "receiver (an additional `__dict__` entry named like the property) is not counted as a change of the receiver; "
+    "every other entry, keyed-container storage object and tuple must be the same object with the same content",
 ]
 OPEN_STATEMENTS = []
 EXHAUSTIVE = {"quick": False, "thorough": False}
@@ -77,18 +93,34 @@ def setup():
 
 def gen_cases(tier, rng):
     if tier == "search":
+        k = 0
         while True:
-            yield H.gen_case(rng, PROFILE)
+            k += 1
+            # every 5th case of the search stream is a scenario of the class families outside the heap grammar
+            yield HS.random_case(PID, rng) if k % 5 == 0 else H.gen_case(rng, PROFILE)
     n = 260 if tier == "quick" else 6000
     for _ in range(n):
         yield H.gen_case(rng, PROFILE)
 
 
-model_lines = H.model_lines
-real_lines = H.real_lines
-shrink = H.shrink_case
-nontrivial = H.nontrivial_keys
-tags = H.op_tags
+def model_lines(case):
+    return [] if HS.is_case(case) else H.model_lines(case)
+
+
+def real_lines(case):
+    return [] if HS.is_case(case) else H.real_lines(case)
+
+
+def shrink(case, at=None):
+    return [] if HS.is_case(case) else H.shrink_case(case, at)
+
+
+def nontrivial(case, real):
+    return [("shapes", H.dumps(case["sc"]))] if HS.is_case(case) else H.nontrivial_keys(case, real)
+
+
+def tags(case, real):
+    return ["shapes:" + HS.route_kind(case["sc"]["route"])] if HS.is_case(case) else H.op_tags(case, real)
 
 
 # ---------------------------------------------------------------------------
@@ -119,6 +151,8 @@ def _diff(before, after):
 
 
 def oracle(case):
+    if HS.is_case(case):  # a scenario of the class families outside the heap grammar (harness/heap_shapes.py)
+        return HS.judge_case(case)
     violations = []
     ops = case["ops"]
     line_fault = case.get("line_fault")
@@ -166,9 +200,13 @@ def oracle(case):
 
 
 def extra(tier, rng):
+    return HS.merge_extra(_extra_crash_points(tier, rng), HS.extra_section(PID, tier, rng))
+
+
+def _extra_crash_points(tier, rng):
     import common
 
-    n_cases = 30 if tier == "quick" else 260
+    n_cases = 22 if tier == "quick" else 260  # (30 until round 4: 8 cases made room for the class families of heap_shapes.py)
     per_call = 20 if tier == "quick" else None  # None: every line event
     probes = []  # (case, index of probed op line)
     for _ in range(n_cases):
@@ -250,10 +288,29 @@ def extra(tier, rng):
     }
 
 
-KNOWN_MATCHERS = {}
+def _kf_keyedlist_restore_crash(case, violation):
+    """KF-C01-keyedlist-restore-crash: only crash-point cases (a `line_fault`) of the class families in which a
+    KeyedList-valued slot is handed a whole conforming KeyedList or the do_not_copy slot is re-stored unchanged, and only
+    when nothing but that KeyedList (the call's argument, or the receiver's do_not_copy entry and the constructor argument
+    it shares by design) differs."""
+    if not (HS.is_case(case) and case.get("shapes") == "C01" and case.get("line_fault") is not None):
+        return False
+    if not HS.known_restore_crash_shape(case["sc"]) or not violation:
+        return False
+    allowed = ("'the argument KeyedList handed to the call'", "'receiver (entries kvals)'", "'ctor_arg kvals'")
+    for v in violation:
+        if "cut at library line" not in v or " changed [" not in v:
+            return False
+        items = [x.strip() for x in v.split(" changed [", 1)[1].rstrip("]").split(", ")]
+        if not items or any(x not in allowed for x in items):
+            return False
+    return True
+
+
+KNOWN_MATCHERS = {"keyedlist_restore_crash": _kf_keyedlist_restore_crash}
 
 MANIFEST_ENTRY = {
     "level_text": "Lean 4 proof, over a heap model with object identities (alloc/write effects, deepcopy with memo, do_not_copy, thaw window, callback fault plans, crash points between effects), that every helper called without _inplace=True writes only objects allocated during the call, hence leaves every pre-existing object (receiver graph, arguments, other instances, class-level defaults) unchanged for every class table, heap, operation, fault plan and effect prefix; tied to /repo on every run by executing generated histories on the real spec_classes and on the model and comparing outcome class, contents and alias pattern of all live objects after every step, plus a line-fault sweep of the real helpers against the model's crash states.",
-    "level_note": "Trusted: Lean kernel; axioms propext/Classical.choice/Quot.sound only; the hand-written heap model (Model/Heap.lean, Model/Inst.lean) and the correspondence harness; user callbacks pure. Class-level do_not_copy=True classes and frozen receivers are outside C01's quantifier (C07 covers frozen). The theorems are about the model; the per-run correspondence is what ties them to the code.",
+    "level_note": "Trusted: Lean kernel; axioms propext/Classical.choice/Quot.sound only; the hand-written heap model (Model/Heap.lean, Model/Inst.lean) and the correspondence harness; user callbacks pure. Class-level do_not_copy=True classes and frozen receivers are outside C01's quantifier (C07 covers frozen). The theorems are about the model; the per-run correspondence is what ties them to the code. KeyedList/KeyedSet, tuple-typed attributes, Alias / spec_property / property backed attributes and invalidated_by are outside the modelled grammar: real-code snapshot oracle over generated class families only (extra, harness/heap_shapes.py).",
     "technique": "Lean 4 frame theorem (writes target fresh identities) over a hand-written heap model; differential correspondence + crash-point sweep against the real helpers",
 }
